@@ -36,6 +36,9 @@ def acl_from(rnd, rules, skip=30):
         toks = list(r["toks"])
         if rnd.chance(20) and len(toks) > 1 and toks[-1] == "*":
             toks = toks[:-1] + ["~"]
+        elif rnd.chance(20) and "*" in toks:
+            # a rule for one concrete key: overlaps partially with another generator's wildcard rule for the same head
+            toks[toks.index("*")] = rnd.choice(RL.WORDS + ["*/[a-z]+/", "*/[0-9]+/", "*/[a-z]+/"])
         if r["children"]:
             if r["children"][0].get("ordered"):
                 ch = [RA.acl_rule(["rule", "~"])] if rnd.chance(70) else [RA.acl_rule(["~"], glob=True)]
@@ -53,7 +56,7 @@ def acl_from(rnd, rules, skip=30):
 def _cases(draw):
     rnd = draw(urandoms())
     vendor = rnd.choice(VENDORS)
-    rules = RL.gen_rules(rnd, heads=RL.HEADS + ["interface"], opts={"logics": ("common.undo_redo",), "rewrite": False})
+    rules = RL.gen_rules(rnd, heads=RL.HEADS + ["interface", "interfaces"], opts={"logics": ("common.undo_redo",), "rewrite": False})
     ctx = RL.Ctx(rules)
     old = RL.gen_tree(rnd, ctx)
     new = RL.mutate(rnd, ctx, old)
